@@ -2,6 +2,13 @@
 //! Bed A: in-process runtime monitors over the working tree of the conjure-* runtime crates.
 mod ctx;
 mod node;
+mod hand;
+mod svc;
+
+#[allow(dead_code, unused_imports, clippy::all)]
+pub mod gen {
+    include!(concat!(env!("OUT_DIR"), "/sink/mod.rs"));
+}
 
 mod c01;
 mod c04;
